@@ -425,6 +425,9 @@ def gen_selsem():
     cs = sel.CompiledSelector("True")
     extra = sorted(k for k in cs.ns if k not in {f.__name__ for f in sel.FUNCTION_WHITELIST})
     out += "Definition compiled_extra_names : list string := %s.\n" % clist([cstr(k) for k in extra])
+    import builtins as _b
+    out += "(* names Python itself defines (builtins): outside the model unless bound above *)\n"
+    out += "Definition python_builtin_names : list string := %s.\n" % clist([cstr(n) for n in sorted(dir(_b)) if n.isidentifier()])
     if order != EXPECTED_ORDER:
         # not fatal for the translator: the proof side condition (C07_generated_shapes) will not check
         pass
